@@ -305,7 +305,49 @@ def run(ctx):
                                    'which may then select an excluded parity')
     r.require_min(4)
 
+    # ---------------- R06h two-data planner: the element handed on is the one that was NOT planned
+    r = ctx.rule('R06h', 'XOR two-data planner: after choosing one of the two missing data elements, the list handed on holds the other one',
+                 'if the planned element stays in the list it is planned twice and the other one never: the answer is well-formed but insufficient')
+    from ..consteval import ConstEval as _CE6, Undecidable as _Und6
+    n6 = 0
+    for tname in ('fragments_needed_two_data',):
+        tf = P.fns.get('@' + tname)
+        if tf is None:
+            continue
+        li = [i_ for i_, (ty, nm) in enumerate(tf.params) if ty == 'i32*'][0]
+        follow = '@fragments_needed_one_data' if tname.startswith('fragments') else '@decode_one_data'
+        for label, answers in (('the first element has a parity of its own', [6]), ('only the second element has one', [-1, 6])):
+            n6 += 1
+            calls = []
+            def hook(ins, args, answers=answers, calls=calls):
+                if ins.callee == '@index_of_connected_parity':
+                    calls.append(args[1])
+                    return answers[len(calls) - 1] if len(calls) <= len(answers) else -1
+                return None
+            args = [None] * len(tf.params)
+            args[li] = ('obj', 'L', ())
+            inst = f'{tname}: {label}'
+            try:
+                res = _CE6(P, tf.mod).run(tf, args, stop_at={follow}, call_hook=hook, objs={'L': {(0,): 3, (1,): 5, (2,): -1}})
+            except _Und6 as e:
+                r.undecided(inst, loc=tf.mod.src, msg=str(e)); continue
+            stops = [e for e in res['events'] if e[0] == 'stop']
+            chosen = calls[len(answers) - 1] if len(calls) >= len(answers) else None
+            if not stops:
+                r.fail(inst, func=tf.name, sig='the remaining element is not handed on', loc=tf.mod.src, msg=f'{tname}: with {label} the single-element routine {follow} is never reached')
+                continue
+            L = stops[0][3].get('L', {})
+            other = 5 if chosen == 3 else 3
+            if chosen in (3, 5) and L.get((0,)) == other and L.get((1,)) == -1:
+                r.ok(inst + f': plans element {chosen}, hands on [{other}, -1]', func=tf.name, loc=stops[0][1].loc)
+            else:
+                r.fail(inst, func=tf.name, sig=f'planned {chosen}, list handed on [{L.get((0,))}, {L.get((1,))}]', loc=stops[0][1].loc,
+                       msg=f'{tname}: for the missing list [3, 5] where {label}, element {chosen} is planned and the list handed to {follow[1:]} is '
+                           f'[{L.get((0,))}, {L.get((1,))}]: it must hold the other element followed by -1')
+    r.require_min(2)
+
     r = ctx.rule('R06f', 'bitmaps built from index lists are consumed only through single-bit tests',
                  'convert_list_to_bitmap sign-extends at index 31: a population count or whole-word comparison miscounts stripes that use fragment 31')
     shared.rule_list_bitmaps(ctx, P, r)
     r.require_min(1)
+    ctx.borrow('c05', ['R05f'], 'the planner classifies the merged list with the same failure-pattern machine as the decoder')
